@@ -931,6 +931,23 @@ theorem sum64_eq (l : List Nat) : sum64 l = l.sum % U64 := by
   have := sum64_aux l 0
   simpa [sum64] using this
 
+theorem sumChecked_aux (l : List Nat) : ∀ a, a + l.sum < U64 →
+    l.foldl checkedAdd (some a) = some (a + l.sum) := by
+  induction l with
+  | nil => intro a _; simp
+  | cons x xs ih =>
+    intro a h
+    simp only [List.sum_cons] at h
+    have hx : add64 a x = a + x := add64_eq_of_lt (by omega)
+    have hstep : checkedAdd (some a) x = some (a + x) := by
+      have hnot : ¬ a + x < a := by omega
+      simp [checkedAdd, hx, hnot]
+    rw [List.foldl_cons, hstep, ih (a + x) (by omega), List.sum_cons, Nat.add_assoc]
+
+theorem sumChecked_eq {l : List Nat} (h : l.sum < U64) : sumChecked l = some l.sum := by
+  have := sumChecked_aux l 0 (by omega)
+  simpa [sumChecked] using this
+
 /-! ## Hypotheses and small facts used by the property theorems -/
 
 /-- The explicit no-overflow hypothesis: the wallet's holdings and the requested total fit a `uint64`. -/
@@ -957,5 +974,18 @@ theorem any_mem {ι : Type} [DecidableEq ι] (t : ι) (l : List ι) :
   constructor
   · rintro ⟨u, hu, h⟩; simp at h; rw [← h]; exact hu
   · intro h; exact ⟨t, h, by simp⟩
+
+/-- "The transaction is in the first block of the answer to `GetBlocks(h)`" — false when the answer is
+an empty list (the validator has no block at that height yet). -/
+def InFirstBlock {ι : Type} (t : ι) (blocks : List (List ι)) : Prop :=
+  ∃ block, blocks.head? = some block ∧ t ∈ block
+
+theorem inFirstBlock_iff {ι : Type} [DecidableEq ι] (t : ι) (blocks : List (List ι)) :
+    inFirstBlock t blocks = true ↔ InFirstBlock t blocks := by
+  cases blocks with
+  | nil => simp [InFirstBlock, inFirstBlock]
+  | cons block more =>
+    simp only [InFirstBlock, inFirstBlock, List.head?_cons, Option.some.injEq, exists_eq_left']
+    exact any_mem t block
 
 end Wallet
